@@ -120,6 +120,29 @@ func checkC28(p *Prog, r *Report) {
 		}
 		r.check(rec, rule, "child digests are computed before the parent is serialised", p.pos(walk.Pos()), fnName(walk), "recursive walk precedes the serialisation", "a directory is serialised before its children's digests are filled in")
 	}
+	// the root directory is canonicalised like every other: Build walks "." before it returns the root
+	if bld := p.Fn("remote", "dirBuilder.Build"); bld == nil {
+		r.unresolved(rule, "remote.dirBuilder.Build")
+	} else {
+		okRoot := true
+		nRet := 0
+		for _, ret := range returnsOf(bld) {
+			nRet++
+			dom := false
+			for _, ci := range callsInFn(bld, walk) {
+				cc := callCommon(ci)
+				for _, a := range cc.Args {
+					if s, isC := constString(a); isC && s == "." && instrDominates(ci, ret) {
+						dom = true
+					}
+				}
+			}
+			if !dom {
+				okRoot = false
+			}
+		}
+		r.check(okRoot && nRet > 0, rule, "the root directory goes through the canonicalising walk", p.pos(bld.Pos()), fnName(bld), "walk(\".\") dominates every return of Build", "dirBuilder.Build returns the root Directory without walking it: files and symlinks that sit directly in the repository root stay in declaration order and keep their duplicates, so the input-root digest depends on input order and the root is not a canonical Directory")
+	}
 	// (2)
 	rule = "E7.directory-digest-sites"
 	{
